@@ -122,9 +122,9 @@ def run_cases(ck, cases):
 def run(ck):
     quick = ck.tier == "quick"
     # quick: 4 requests / sizes 1..4 / no pauses, and 3 requests / sizes 1..3 / optional pauses / both requester patterns;
-    # thorough: 4 requests with pauses and both patterns, and 5 requests / sizes 3,5 / no pauses
-    cfgs = ("ROB_q.cfg", "ROB_q3.cfg") if quick else ("ROB_t.cfg", "ROB_t5.cfg")
-    with concurrent.futures.ThreadPoolExecutor(max_workers=2) as ex:     # the two TLC runs are independent
+    # thorough: 4 requests / sizes 1..4 / pauses / alternating requesters, 5 requests / sizes 3,5 / no pauses, and the 3-request set
+    cfgs = ("ROB_q.cfg", "ROB_q3.cfg") if quick else ("ROB_t.cfg", "ROB_t5.cfg", "ROB_q3.cfg")
+    with concurrent.futures.ThreadPoolExecutor(max_workers=3) as ex:     # the two TLC runs are independent
         runs = list(ex.map(lambda cfg: core.tlc(["mem"], "ROB", cfg, workers=3 if quick else 5, timeout=240 if quick else 900), cfgs))
     behs = []
     for cfg, r in zip(cfgs, runs):
